@@ -80,7 +80,8 @@ RLCatAll(ds) == IF ds = << >> THEN << >> ELSE RLCat(Run(ds[1]), RLCatAll(Tail(ds
 (* The world: objs (function from live object ids to object states) and    *)
 (* held (AnchoredSlices the environment holds: id -> run list).            *)
 (***************************************************************************)
-EmptyObj == [buf |-> << >>, pend |-> {}, lens |-> << >>]
+\* kin: the object is a clone, or has been cloned, since it was last emptied (C20: the two sides stay valid independently)
+EmptyObj == [buf |-> << >>, pend |-> {}, lens |-> << >>, kin |-> FALSE]
 EmptyWorld == [objs |-> << >>, held |-> << >>]
 
 Restrict(f, S) == [x \in S |-> f[x]]
@@ -118,7 +119,7 @@ Produce(w, e) ==
          [w EXCEPT !.objs = Put(@, e.o, [w.objs[e.o] EXCEPT !.buf = RLFill(@, e.id, e.v), !.pend = @ \ {e.id}])]
     [] e.ev = "clear" -> [w EXCEPT !.objs = Put(@, e.o, EmptyObj)]
     [] e.ev = "take" -> [w EXCEPT !.objs = Put(Put(@, e.to, w.objs[e.o]), e.o, EmptyObj)]
-    [] e.ev = "clone" -> [w EXCEPT !.objs = Put(@, e.to, w.objs[e.o])]
+    [] e.ev = "clone" -> LET src == [w.objs[e.o] EXCEPT !.kin = TRUE] IN [w EXCEPT !.objs = Put(Put(@, e.o, src), e.to, src)]
     [] e.ev = "drop" -> [w EXCEPT !.objs = Del(@, e.o)]
     [] OTHER -> w          \* flush, ensure, take_arena, swap_arena: the contents do not change
 
